@@ -68,8 +68,16 @@ def gain_case(rec, seedt, backend, cuda):
     exact = bool(rng.random() < 0.5)
     g = float(rng.choice([-1, 1])) * (2.0 ** int(rng.integers(-10, 11)) if exact
                                       else 10 ** rng.uniform(-3, 3))
-    x = gen.record(rng, N, str(rng.choice(["white", "walk", "ar1", "ramp", "sine+noise",
-                                           "offset1e6"] if exact else ["white", "ar1"])))
+    rk = str(rng.choice(["white", "walk", "ar1", "ramp", "sine+noise", "offset1e6",
+                         "line-over-1e-9-floor", "f^-4"] if exact else ["white", "ar1"]))
+    if rk == "line-over-1e-9-floor":
+        x = np.sin(2 * math.pi * float(rng.uniform(0.05, 0.3)) * np.arange(N)) \
+            + 1e-9 * rng.standard_normal(N)
+    elif rk == "f^-4":
+        x = np.cumsum(np.cumsum(rng.standard_normal(N)))
+        x -= np.mean(x)
+    else:
+        x = gen.record(rng, N, rk)
     y = g * x
     desc = {"kind": "gain", "seed": list(seedt), "backend": backend, "N": N, "g": g,
             "order": order, "sched": sched, "win": win, "cuda": cuda}
